@@ -467,7 +467,9 @@ def check(case: Dict[str, Any]) -> Dict[str, Any]:
     runs = 1
     used_drop = False
     drops: List[Tuple[int, Optional[int]]] = []
-    if n:
+    if case.get('force_drops') is not None:
+        drops = [(d[0], d[1]) for d in case['force_drops']]       # a saved failing case names the dropped datagram itself
+    elif n:
         if TIER['name'] == 'thorough' and n <= 120:
             drops = [(k, None) for k in range(n)]
         else:
@@ -494,6 +496,7 @@ def check(case: Dict[str, Any]) -> Dict[str, Any]:
             if isinstance(v.details, dict):
                 meta = base.trace_meta[d[0]] if d[0] < len(base.trace_meta) else None
                 v.details['dropped'] = {'k': d[0], 'receiver': d[1], 'datagram': meta}
+            case['force_drops'] = [[d[0], d[1]]]       # so that the replay file reproduces in either tier
             raise
         if d[0] < len(base.trace_meta) and base.trace_meta[d[0]][2] in (sim.MDNS4, sim.MDNS6):
             used_drop = True
